@@ -247,6 +247,33 @@ def install_crosshair_patches():
         exec_module._verif_wrapped = True
         _im.SourceFileLoader.exec_module = exec_module
 
+    # functools.lru_cache: CrossHair calls the wrapped function every time (cache skipped).  Memoisation is program behaviour (a stale
+    # entry is a classic history bug), so it is modelled faithfully: per-wrapper table, keys compared with == (the solver decides for
+    # symbolic arguments), emptied at the start of every path (each path is a fresh process after import).
+    import functools as _ft
+
+    def lru_call(self, *a, **kw):
+        if not isinstance(self, _ft._lru_cache_wrapper):
+            raise TypeError
+        with NoTracing():
+            table = LRU_MEMO.setdefault(id(self), [])
+            n = len(table)
+        for i in range(n):
+            pa, pkw, res = table[i]
+            if len(pa) == len(a) and len(pkw) == len(kw) and pa == a and pkw == kw:
+                return res
+        res = self.__wrapped__(*a, **kw)
+        with NoTracing():
+            table.append((a, dict(kw), res))
+        return res
+
+    def lru_clear(self):
+        with NoTracing():
+            LRU_MEMO.pop(id(self), None)
+
+    _core._PATCH_REGISTRATIONS[_ft._lru_cache_wrapper.__call__] = lru_call
+    _core._PATCH_REGISTRATIONS[_ft._lru_cache_wrapper.cache_clear] = lru_clear
+
     def ljust(self, width, fill=b" "):
         n = len(self)
         if width <= n:
@@ -257,6 +284,7 @@ def install_crosshair_patches():
 
 
 FORMAT_MARKER = "SYM"
+LRU_MEMO = {}
 
 
 # ------------------------------------------------------------------------------------------------ runner
@@ -274,6 +302,7 @@ def run_harness(harness, budget_s: float, per_path_s: float = 60.0, twin: bool =
         with NoTracing():
             STATE["paths"] += 1
             STATE["leaves"] = {}
+            LRU_MEMO.clear()
         try:
             return harness()
         except Exception as e:  # an exception escaping the harness body is a failing path: record the leaves
